@@ -358,6 +358,7 @@ func ZZH_C08_MarshalOrder() {
 	if sect == 1 {
 		want = append(want, "SectionProperties")
 	}
+	before := append([]interface{}(nil), d.Body.Elements...)
 	got := zzvBodyChildren(d.Body)
 	ok := len(got) == len(want)
 	if ok {
@@ -368,5 +369,25 @@ func ZZH_C08_MarshalOrder() {
 		}
 	}
 	zzvAssert(ok, "marshal: children are the non-section elements in list order, then the section settings exactly once, last")
+	// serialising is an observation: the body list is what it was, and a second save says the same
+	same := len(d.Body.Elements) == len(before)
+	if same {
+		for i := range before {
+			if d.Body.Elements[i] != before[i] {
+				same = false
+			}
+		}
+	}
+	zzvAssert(same, "marshal: serialising leaves the body element list untouched")
+	again := zzvBodyChildren(d.Body)
+	ok2 := len(again) == len(want)
+	if ok2 {
+		for i := range again {
+			if again[i] != want[i] {
+				ok2 = false
+			}
+		}
+	}
+	zzvAssert(ok2, "marshal: a second serialisation lists the same children")
 	zzvReach("marshalled")
 }
